@@ -259,7 +259,7 @@ class Family:
             bases.append(d["mixin"])
         if d.get("generic"):
             bases.append(f"Generic[{', '.join(d['generic'])}]")
-        dc_args = d.get("dc_args") or {}
+        dc_args = d.get("dc_args") or getattr(self, "default_dc_args", None) or {}
         deco = "@dataclass"
         if dc_args:
             deco += "(" + ", ".join(f"{k}={v!r}" for k, v in dc_args.items()) + ")"
